@@ -832,7 +832,9 @@ fn process_tx(spec: &TxSpec, cons: &Arc<ckb_chain_spec::consensus::Consensus>, r
         };
         let io = end_res.as_ref().map(|r| io_known(r)).unwrap_or(false);
         // known class: a many-VM spawn script ends with a different cycle total
-        let swap = many_vms && matches!((&end_res, &w.res), (Some(Res::Ok(c)), Res::Ok(d)) if c != d);
+        // (or the script's own cycle self-check fails: spawn_cycles exits with 31)
+        let swap = many_vms && matches!(w.res, Res::Ok(_))
+            && matches!(&end_res, Some(r) if !r.same_verdict(&w.res) && (matches!(r, Res::Ok(_)) || matches!(r, Res::Err(TErr { cause: Cause::Script(c), .. }) if *c >= 1000 && *c < 1256)));
         let chunk_sig: Option<&str> = if io { Some(SIG_IO) } else if swap { Some(SIG_SWAP) } else { None };
         if let Some(sg) = chunk_sig {
             runj["known_class"] = json!(sg);
@@ -846,7 +848,7 @@ fn process_tx(spec: &TxSpec, cons: &Arc<ckb_chain_spec::consensus::Consensus>, r
         // consumed cycles recorded in a state never exceed the uninterrupted cost
         for s in &run.susp {
             if matches!(w.res, Res::Ok(_)) && s.cycles + s.progress.unwrap_or(0) > cost {
-                t.viol.push(Violation { what: format!("{name}: a suspended state holds {} + {} cycles, more than the uninterrupted cost {}", s.cycles, s.progress.unwrap_or(0), cost), detail: mk_detail(runj.clone()), signature: None });
+                t.viol.push(Violation { what: format!("{name}: a suspended state holds {} + {} cycles, more than the uninterrupted cost {}", s.cycles, s.progress.unwrap_or(0), cost), detail: mk_detail(runj.clone()), signature: if many_vms { Some(SIG_SWAP.into()) } else { None } });
                 break;
             }
         }
@@ -890,7 +892,8 @@ fn process_tx(spec: &TxSpec, cons: &Arc<ckb_chain_spec::consensus::Consensus>, r
                 let mut runj = json!({"kind": "complete", "skip_debug_pause": skip_pause, "limits": pre, "state": susp_json(&sp), "max": max, "observed": res_json(&r)});
                 let io = io_known(&r);
                 // many-VM spawn scripts: the chunked prefix already changed the total
-                let swap = many_vms && matches!(w.res, Res::Ok(_)) && (matches!(&r, Res::Ok(c) if *c != cost) || (max >= cost && r.is_exceeded()));
+                let swap = many_vms && matches!(w.res, Res::Ok(_)) && (matches!(&r, Res::Ok(c) if *c != cost) || (max >= cost && r.is_exceeded())
+                    || matches!(&r, Res::Err(TErr { cause: Cause::Script(c), .. }) if *c >= 1000 && *c < 1256));
                 if let Some(msg) = check_budget(&w, max, &r) {
                     // known class: complete() grants the suspended group the cycles it
                     // already consumed on top of the budget: it behaves like the
